@@ -34,7 +34,16 @@ TC10Q == /\ Ev.e = "c10q" /\ ~Ev.panic
 \* (a negative number comes back as a minus applied to a number: the harness reads that as the negative number)
 TC10Lit == /\ Ev.e = "c10lit" /\ ~Ev.panic
            /\ Ev.rendered => (Ev.reparse_ok /\ Ev.parsed_type = Ev.expected_type /\ Ev.same_value)
-TNext == l <= Len(TraceLog) /\ (TC10 \/ TC07 \/ TKind \/ TC10Q \/ TC10Lit) /\ l' = l + 1
+\* create queries: whatever a builder accepted parses; every variable the query reads (WHERE, RETURN, SET, DELETE) is
+\* bound by its MATCH or introduced by its CREATE; there is exactly one CREATE clause; and the text of the Neo4j builder
+\* and the model of query.Builder bind and create the same variables
+SetOf(s) == {s[i] : i \in DOMAIN s}
+TC10C == /\ Ev.e = "c10c" /\ ~Ev.panic
+         /\ Ev.built => /\ Ev.reparse_ok /\ Ev.note = ""
+                         /\ SetOf(Ev.facts.refs) \subseteq (SetOf(Ev.facts.bound) \cup SetOf(Ev.facts.created))
+                         /\ Ev.facts.creates = 1
+                         /\ Ev.peer_ok => (SetOf(Ev.facts.bound) = SetOf(Ev.peer_bound) /\ SetOf(Ev.facts.created) = SetOf(Ev.peer_created))
+TNext == l <= Len(TraceLog) /\ (TC10 \/ TC07 \/ TKind \/ TC10Q \/ TC10Lit \/ TC10C) /\ l' = l + 1
 TSpec == TInit /\ [][TNext]_l
 HW == TLCSet(1, IF l > TLCGet(1) THEN l ELSE TLCGet(1))
 Accepted == IF TLCGet(1) = Len(TraceLog) + 1 THEN TRUE ELSE PrintT(<<"STUCK_AT_LINE", TLCGet(1)>>) /\ FALSE
